@@ -1110,7 +1110,9 @@ func (e *engine) Gen(r *rand.Rand, n int, tier string, w *bufio.Writer) {
 					emit("crash %s", Hx(id))
 				case 2, 3:
 					var sus []string
-					for _, m := range g.st.Nodes() {
+					metas := g.st.Nodes() // map order: sort, the draws below must not depend on it
+					sort.Slice(metas, func(i, j int) bool { return metas[i].ID < metas[j].ID })
+					for _, m := range metas {
 						if m.ID != id && (sim.nodes[m.ID] == nil || sim.nodes[m.ID].dead || r.Intn(5) == 0) && r.Intn(4) > 0 {
 							sus = append(sus, Hx(m.ID))
 						}
